@@ -850,6 +850,21 @@ fn run_subsets(plan: &Plan, lib: &dyn Lib, g: Grp, rec: &mut Rec, exhaustive: bo
             let v = rec.call(lib, g, Op::PkShareVerify, &[&forged, &partials[i], &m]);
             rec.expect("C08", "partial-rejects-other", !v.is_ok(), || format!("other | partial {} verified against pk share {} relabelled with its identifier", i + 1, j + 1));
         }
+        // scheme label and message changed together: participant i's honest partial over (its key-share point || m)
+        // under this scheme, relabelled MessageAugmentation and presented for m — i never signed m under any scheme
+        if k < 2 {
+            let pm = { let mut v = d.pk_shares[i][1..].to_vec(); v.extend_from_slice(&m); v };
+            if let Some(mut forged) = rec.call(lib, g, Op::ShareSign, &[&d.shares[i], &[scheme], &pm]).first().map(|b| b.to_vec()) {
+                forged[0] = 1;
+                let v = rec.call(lib, g, Op::PkShareVerify, &[&d.pk_shares[i], &forged, &m]);
+                rec.expect("C08", "relabelled-partial-rejected", !v.is_ok(), || format!("relabel+prefix | a {} partial of participant {} over key-share||m was accepted as a MessageAugmentation partial over m", scheme, i + 1));
+                // and the honest partial over m relabelled MessageAugmentation
+                let mut relabelled = partials[i].clone();
+                relabelled[0] = 1;
+                let v = rec.call(lib, g, Op::PkShareVerify, &[&d.pk_shares[i], &relabelled, &m]);
+                rec.expect("C08", "relabelled-partial-rejected", !v.is_ok(), || format!("relabel | the honest partial of participant {} was accepted under the MessageAugmentation label", i + 1));
+            }
+        }
     }
     let mut subsets: Vec<Vec<usize>> = vec![];
     if exhaustive {
